@@ -29,7 +29,7 @@ def _extra(ctx):
 
 
 PROP = dict(
-    quick_n=1500, thorough_n=40000,
+    quick_n=1200, thorough_n=40000,
     trusted_base=["heap model of Go slices (Arrai/C03/Heap.lean): `append` writes in place iff len+n <= cap, otherwise moves to a fresh "
                   "array whose capacity an oracle chooses; re-slicing, copy, make, indexed store as in the Go specification",
                   "frozen's persistent sets/maps and everything that is not a []rune/[]byte/[]Value payload are modelled as immutable "
